@@ -401,7 +401,14 @@ def run_case(case, workdir):
             with vpool.controlled():
                 with poisoned(MODS, 0):
                     mo = Mandoline(path, fields=["G", "A", "grid_level"], serial=serial, verbose=0)
-                    return [mo.slice(normal=nn, pos=pp, fformat="return") for nn, pp in seq]
+                    res = []
+                    for nn, pp in seq:
+                        r = mo.slice(normal=nn, pos=pp, fformat="return")
+                        res.append({k_: (np.array(v_, copy=True) if isinstance(v_, np.ndarray) else v_) for k_, v_ in r.items()})
+                        for v_ in r.values():          # the caller post-processes its result in place
+                            if isinstance(v_, np.ndarray) and v_.flags.writeable:
+                                v_ *= -1000.0
+                    return res
         st, val = call(hist)
         rec.exe([dh, "history", serial], trans=len(seq))
         if st == "exc":
